@@ -24,7 +24,7 @@ PROPS = {
         suites=["seq"], tags={"cas_exact", "staging_empty"}, corr={"dir"},
         rule="directory listing after every op of error-free sequential histories vs the set of live contents"),
     "C12": dict(
-        suites=["seq", "crash"], tags={"counts", "stats", "sizes"}, corr={"state", "ret_stats"}, crash_corr={"recovery"},
+        suites=["seq", "crash", "sizes"], tags={"counts", "stats", "sizes"}, corr={"state", "ret_stats"}, crash_corr={"recovery"},
         rule="known_blobs / stats / sizes after every op, after reopen and after every crash recovery vs recount from the spec map"),
     "C13": dict(
         suites=["seq", "fault"], tags={"abort_noop", "staging_leftover"}, corr={"trace", "state", "dir"},
@@ -67,7 +67,7 @@ PROPS = {
              "content, pre-existing shared blobs and orphans) under schedules chosen by the Coq model at the granularity of lock acquisitions and filesystem calls; "
              "after every step: every indexed key's blob exists; distinct = distinct (thread, point) step sequences"),
     "C05": dict(
-        suites=["conc"], tags={"read_atomic", "nofail"},
+        suites=["conc"], tags={"read_atomic", "put_visible", "nofail"},
         rule="K6 schedules with readers parked between lookup and blob open; each read result must be a value the key held during the call"),
     "C15": dict(
         suites=["conc"], tags={"stuck"},
